@@ -561,7 +561,11 @@ example : a ∈ live (runState true newPool ([.add (some c)] ++ [.adds [some a, 
       between that deletes or expires the tx;
     * `TxGuard.ExistTx` then `TxPool.AddTx` (api.go, protocol_manager.go) is not atomic against a block's
       `DelTxs`: a tx mined in between is accepted again after its deletion (`never_deleted` excludes this by
-      its hypothesis "no call re-adds the hash"); the next `GetTxs`/mining round rejects it via the guard.
+      its hypothesis "no call re-adds the hash").  The POOL does not notice: the tx stays pending although it is on the
+      node's own branch (`LemoProofs.C04Pool.pool_clean_refuted`).  `GetTxs` never asks the guard; before /repo fix
+      609d2a8 neither did `MineBlock`, which then packed the tx a second time (block rejected by every other node:
+      `C04Pool.miner_includes_guarded_tx_before_609d2a8`); since that fix `MineBlock` puts every candidate to
+      `TxGuard.ExistTx(parent, tx)` and deletes the replayed ones (`C04Pool.mined_block_passes_verify`).
 -/
 
 /-- atomic-method executions of `progs` (one program per thread) from state `p`: the trace lists
